@@ -55,7 +55,7 @@ InRange(k, v) ==
 
 \* ------------------------------------------------------------------ floats
 F32Exact == {"pz", "nz", "pinf", "ninf", "nan", "half", "one", "m1p5", "f32max", "f32den", "p2_24"}
-F64Only  == {"e300", "p2_53p1", "f64den", "tenth", "f64max"}
+F64Only  == {"e300", "p2_53m1", "f64den", "tenth", "f64max"}
 FloatTokens == F32Exact \cup F64Only
 FloatKinds == {"f32", "f64"}
 
@@ -97,7 +97,9 @@ Leaves == IntLeavesOK \cup FloatLeaves \cup BoolLeaves \cup StringLeaves \cup Sl
 
 \* ------------------------------------------------------------------ ToPy / FromPy
 \* the text a valid UTF-8 Go string denotes: the code point sequence whose encoding it is
-Decode(bytes) == CHOOSE c \in Texts : Utf8Seq(c) = bytes
+\* (tabulated once; TLC caches constant-level definitions)
+DecodeTable == [b \in {Utf8Seq(c) : c \in Texts} |-> CHOOSE c \in Texts : Utf8Seq(c) = b]
+Decode(bytes) == DecodeTable[bytes]
 
 RECURSIVE ToPy(_)
 ToPy(g) ==
